@@ -2,7 +2,7 @@
    This file contains only the property theorems; each is closed by [exact] of a lemma proved
    elsewhere and followed by Print Assumptions. *)
 From Coq Require Import String List.
-From Asphalt Require Import Config.Val Config.MergeSpec Config.MergeProofs Gen.Gen_merge Gen.Tie_merge.
+From Asphalt Require Import Config.Val Config.MergeSpec Config.MergeProofs Config.MergeSim Gen.Gen_merge Gen.Tie_merge.
 
 (* (T) about the definition regenerated from the current text of merge_config: whatever the
    arguments, the heap, the depth: no dict object that existed before the call is written
@@ -14,6 +14,19 @@ Theorem C17_pure : forall fuel h o v h' r,
   fresh_ref h h' r.
 Proof. exact gen_args_unchanged. Qed.
 Print Assumptions C17_pure.
+
+(* (T) ... and it computes the pure merge: on EVERY heap (shared and aliased sub-dictionaries
+   included), for any two values that read back as trees at any depth, the regenerated definition
+   terminates with a new object that reads back as the pure merge of those trees (a non-dict or
+   empty argument counting as {}), both arguments still reading as before.  The four theorems
+   below, stated of the pure merge, therefore hold of the translated code. *)
+Theorem C17_refines : forall n h vo vv to tv,
+  read (S n) h vo = Some to -> read (S n) h vv = Some tv ->
+  exists h' r, merge_config_gen (S (S n)) h vo vv = Some (h', r) /\
+    read (S n) h' r = Some (TDict (merge_dict (as_dict to) (as_dict tv))) /\
+    read (S n) h' vo = Some to /\ read (S n) h' vv = Some tv /\ fresh_ref h h' r.
+Proof. exact gen_computes_merge. Qed.
+Print Assumptions C17_refines.
 
 (* every key of either input is present, and no other *)
 Theorem C17_keys : forall o v k,
